@@ -64,6 +64,9 @@ pub(crate) struct Operator<'o> {
     inner: IoUring,
     entering: AtomicBool,
     backlog: Mutex<VecDeque<&'o Entry>>,
+    // the submission queue has a single producer side: calls made by plain
+    // threads and the event-loop thread push concurrently
+    sq_lock: Mutex<()>,
 }
 
 impl Operator<'_> {
@@ -76,16 +79,20 @@ impl Operator<'_> {
                 inner,
                 entering: AtomicBool::new(false),
                 backlog: Mutex::new(VecDeque::new()),
+                sq_lock: Mutex::new(()),
             })
     }
 
     fn push_sq(&self, entry: Entry) -> std::io::Result<()> {
         let entry = Box::leak(Box::new(entry));
-        if unsafe { self.inner.submission_shared().push(entry).is_err() } {
-            self.backlog
-                .lock()
-                .expect("backlog lock failed")
-                .push_back(entry);
+        {
+            let _sq = self.sq_lock.lock().expect("sq lock failed");
+            if unsafe { self.inner.submission_shared().push(entry).is_err() } {
+                self.backlog
+                    .lock()
+                    .expect("backlog lock failed")
+                    .push_back(entry);
+            }
         }
         match self.inner.submit() {
             Ok(_) => Ok(()),
@@ -139,6 +146,7 @@ impl Operator<'_> {
         cq.sync();
 
         // clean backlog
+        let _sq = self.sq_lock.lock().expect("sq lock failed");
         let mut sq = unsafe { self.inner.submission_shared() };
         loop {
             if sq.is_full() {
